@@ -170,6 +170,12 @@ class C16Machine(Machine):
                         cell += "." * 70      # make the file cross the 8 KiB text buffer
                     row.append(cell)
             rows.append(row)
+        # near-duplicates of earlier target cells (case, surrounding blanks): what a badly keyed
+        # per-cell cache or a normalising "optimisation" would confuse
+        for i in range(1, len(rows)):
+            if rng.random() < 0.15:
+                src = rows[rng.randrange(i)][col]
+                rows[i][col] = rng.choice([src + " ", " " + src, src.swapcase(), src.upper(), src.lower(), src])
         hdr = None
         if cfg["header"]:
             hdr = [(rng.choice(NASTY) if rng.random() < cfg["p_nasty"] / 2 else "h" + str(c)) for c in range(width)]
